@@ -24,7 +24,8 @@ fn state(tc: &mut TcCache, ids: &[String], contents: &[Vec<u8>], fails: &mut Vec
 }
 
 fn run(ops: &[(char, usize, usize)], cap: u64) -> (String, String, Vec<(String, String)>, u64) {
-    let contents: Vec<Vec<u8>> = (0..4u8).map(|i| vec![b'c', b'0' + i, b'\n']).collect();
+    // content 3 is the empty archive body (its id is the digest of the empty string): an upload may carry no bytes at all
+    let contents: Vec<Vec<u8>> = (0..4u8).map(|i| if i == 3 { vec![] } else { vec![b'c', b'0' + i, b'\n'] }).collect();
     let ids: Vec<String> = contents.iter().map(|c| sccache::util::Digest::reader_sync(&c[..]).unwrap()).collect();
     let tmp = tempfile::tempdir().unwrap();
     let mut tc = TcCache::new(tmp.path(), cap).unwrap();
